@@ -205,6 +205,105 @@ def _m(mref):
     return "bool" + "".join(map(str, mref))
 
 
+class LongGroupSpace(Subspace):
+    """'groups of any size': finite boundary family around the 8- and 16-bit limits - group sizes
+    127..129, 255..257, 32767..32769, 65535..65537 x key kinds whose group codes are narrow (small
+    categoricals and boolean keys: int8 codes; categoricals with 200 categories: int16 codes) x
+    narrow value dtypes (int8 / uint8 / bool sums and counts must not wrap) x no mask / a periodic
+    boolean mask.  Reference: the same pure-Python per-group definition."""
+    shard = 1
+
+    def __init__(self, tier, seed=0):
+        self.name = "long-groups"
+        q = tier == "quick"
+        small = (129, 257) if q else (127, 128, 129, 255, 256, 257, 300)
+        big = (32769,) if q else (32767, 32768, 32769, 65535, 65536, 65537)
+        cells = []
+        for S in small:
+            for kk in ("cat8", "bool", "int"):
+                for vd in ("f8", "i1", "u1", "b"):
+                    cells.append((S, kk, vd))
+        for S in big:
+            for kk, vd in (("cat16", "f8"), ("cat8", "i1"), ("int", "u1"), ("cat16", "b")):
+                cells.append((S, kk, vd))
+        self.cells = cells
+        self.seed = seed
+
+    def size(self):
+        return len(self.cells)
+
+    def warm_indices(self, n):
+        return (0, 1, 2, 3)
+
+    def case(self, i):
+        S, kk, vd = self.cells[i]
+        return dict(S=S, keykind=kk, vdtype=vd)
+
+    def run(self, case):
+        from groupby_lib import GroupBy
+
+        res = Result()
+        res.nontrivial = True
+        S, kk, vd = case["S"], case["keykind"], case["vdtype"]
+        n = 2 * S + 3
+        codes = (np.arange(n) % 2).astype(np.int64)
+        codes[-3:] = 1  # the two groups differ in size: S and S + 3
+        if kk == "cat8":
+            keys = pd.Categorical.from_codes(codes.astype("i1"), categories=["a", "b", "c"])
+            labs = ["a", "b"]
+        elif kk == "cat16":
+            keys = pd.Categorical.from_codes(codes.astype("i2"), categories=[f"c{i:03d}" for i in range(200)])
+            labs = ["c000", "c001"]
+        elif kk == "bool":
+            keys = codes.astype(bool)
+            labs = [False, True]
+        else:
+            keys = codes + 10
+            labs = [10, 11]
+        if vd == "f8":
+            vals = (np.arange(n) % 7 - 3).astype("f8")
+            vals[::5] = np.nan
+        elif vd == "i1":
+            vals = (np.arange(n) % 5 + 1).astype("i1")       # group sums far beyond 127
+        elif vd == "u1":
+            vals = (np.arange(n) % 3 + 200).astype("u1")     # beyond 255 after two rows
+        else:
+            vals = (np.arange(n) % 3 != 0)
+        py = [None if (vd == "f8" and v != v) else (bool(v) if vd == "b" else (float(v) if vd == "f8" else int(v)))
+              for v in vals.tolist()]
+        seams = env.seams()
+        seams.set(executor=sched.NAMESPACE)
+        sched.set_schedule(sched.Schedule())
+        for mname, mask in (("none", None), ("periodic", (np.arange(n) % 4 != 1))):
+            rows = {0: [], 1: []}
+            for i in range(n):
+                if mask is None or mask[i]:
+                    rows[int(codes[i])].append(i)
+            for op in ops_for(vd):
+                res.execs += 1
+                tag = f"{op} group sizes {S}/{S + 3} {kk} keys {vd} values mask={mname}"
+                o = gbh.call(lambda: GroupBy(keys).size(mask=mask) if op == "size"
+                             else getattr(GroupBy(keys), op)(vals, mask=mask))
+                if o.raised:
+                    res.fail("total", f"{tag}: raised {o.raised}")
+                    continue
+                if [str(x) for x in o.labels] != [str(x) for x in labs]:
+                    res.fail("labels", f"{tag}: labels {o.labels} expected {labs}")
+                    continue
+                col = next(iter(o.values))
+                try:
+                    ndt = np.dtype(o.dtypes[col])
+                except TypeError:
+                    ndt = None
+                for g in (0, 1):
+                    ev = R.reduce_values(op, [py[i] for i in rows[g]])
+                    if not C.same(ev, o.values[col][g], ndt):
+                        res.fail("values", f"{tag}: group {labs[g]}: expected {ev} got {o.values[col][g]}")
+                        break
+        seams.reset()
+        return res
+
+
 KEY_KINDS = ("float", "str_obj", "str_series", "bool", "dt_ns", "dt_us", "dt_s", "cat")
 VAL_DTYPES = ("f4", "i8", "i4", "i2", "i1", "u1", "u8", "b", "M8[ns]", "M8[us]", "m8[ns]", "m8[us]")
 
@@ -262,4 +361,5 @@ def subspaces(tier, seed):
             for vd in ("i8", "b", "M8[ns]", "m8[ns]", "f4"):
                 sp.append(S(f"S3-{kk}-x-{vd}-n1to3", 2, 1, 3, keys=(kk,), vdtype=vd, mask="none",
                             seed=seed))
+    sp.append(LongGroupSpace(tier, seed))
     return sp
